@@ -156,7 +156,7 @@ func runC09(r *Run) {
 	r.Result.Rule = "scenario = routing table built through traffic (good, questionable (aged), never-responded, bad (failed ping) entries, IPv4/IPv6/v4-mapped, across buckets) then find_node/get_peers/get queries with every want combination from both families and targets in every populated bucket incl. the own ID; the decoded nodes/nodes6 are checked against the table snapshot; non-trivial = reply that lists at least one node"
 	n := r.n(25, 600)
 	for i := 0; i < n; i++ {
-		sc := r.newSrvScen(srvOpts{noSecurity: true, peerStore: i%3 == 0})
+		sc := r.newSrvScen(srvOpts{noSecurity: true, peerStore: i%3 == 0, defaultWant: i%2 == 1})
 		sc.nodeListQueries(60)
 		r.Result.TracesValidated++
 		if i < 2 {
